@@ -102,12 +102,15 @@ pub open spec fn msg_wf(m: WorkerMessage, w: World) -> bool {
 
 //@extract src/worker_pool.rs :: worker_tick world props=C10+C02+C06+C01
 //@contract
-    requires inv(*old(w)), tracker_inv(*old(w)), !old(w).journal.locked, !old(w).journal.mutex_poisoned,
+    requires inv(*old(w)), tracker_inv(*old(w)), !old(w).journal.locked, !old(w).journal.mutex_poisoned, !old(w).reclaim_due,
         // ASSUMED about the channel and the flush queue: they only ever hold handles of registered keyspaces
         forall|m: WorkerMessage| msg_wf(m, *old(w)), forall|t: Task| ks_wf(&t.keyspace, *old(w)),
     ensures
         !final(w).journal.locked, // [C06:worker-never-leaks-the-journal-lock] [C10:worker-never-leaks-the-journal-lock]
         final(w).journal.recs == old(w).journal.recs, // [C02:background-work-appends-nothing-to-the-journal]
+        // a flush can make sealed journals reclaimable: the tick that completes one runs a reclaim pass afterwards (with the completeness of
+        // JournalManager::maintenance, U-JMGR, this is what brings the number of journal files back to one once everything is flushed)
+        r is Ok ==> !final(w).reclaim_due, // [C10:every-completed-flush-is-followed-by-a-reclaim-pass]
         forall|k: u64| old(w).trees.dom().contains(k) ==> final(w).trees.dom().contains(k) && (#[trigger] final(w).trees[k]).applied == old(w).trees[k].applied, // [C01:maintenance-keeps-applied-ops]
 //@proof before match item
     proof { assert(msg_wf(item, *old(w))); }
